@@ -102,3 +102,42 @@ pub fn p_fixed_builder(depth: u8, is_full: bool, cap: usize, m: usize, p0: u64, 
   let expected = if pushed { if is_full { FULL } else { PARTIAL } } else { ABSENT };
   assert!(sr == expected, "C15: builder output does not cover exactly the pushed cells with the requested flag");
 }
+
+/// Inductive step of the fixed-depth builder across a buffer flush: an accumulated BMOC made of one (possibly merged, coarse) cell
+/// (d0, h0) + a freshly filled buffer holding the cell p0 -> `drain_buffer` must return their union with the requested flag.
+/// Solver side: the pre-state is constructed directly. Native side: the same pre-state is reached through the public API (push the
+/// 4^(depth-d0) deepest cells of (d0, h0) in order with exactly that capacity -- the buffer fills up and is flushed into one merged
+/// cell --, then push p0 and call to_bmoc).
+pub fn p_fixed_merge(depth: u8, is_full: bool, d0: u8, h0: u64, p0: u64, c: u64) {
+  let nh = spec_n_hash(depth);
+  if !(depth <= 29 && d0 <= depth && depth - d0 <= 8 && h0 < spec_n_hash(d0) && p0 < nh && c < nh) { return; }
+  let sh = 2 * (depth - d0) as u32;
+  let bm = fixed_merge_run(depth, is_full, d0, h0, p0);
+  assert!(bm.get_depth_max() == depth, "C15: builder output has the wrong depth_max");
+  let (bad, sr, _) = spec_scan(depth, &bm.entries, c);
+  assert!(bad.is_none(), "C15/C09: builder output is not well formed");
+  let expected = if (c >> sh) == h0 || c == p0 { if is_full { FULL } else { PARTIAL } } else { ABSENT };
+  assert!(sr == expected, "C15: builder output does not cover exactly the pushed cells with the requested flag");
+}
+
+#[cfg(kani)]
+fn fixed_merge_run(depth: u8, is_full: bool, d0: u8, h0: u64, p0: u64) -> BMOC {
+  let a = Ops { dm: depth, n: 1, d: [d0, 0, 0, 0], h: [h0, 0, 0, 0], f: [is_full, false, false, false] };
+  let prev = bmoc_build(&a);
+  let mut buffer: Vec<u64> = Vec::with_capacity(4);
+  buffer.push(p0);
+  let mut b = BMOCBuilderFixedDepth { depth, bmoc: Some(prev), is_full, buffer, sorted: true };
+  b.drain_buffer();
+  b.bmoc.take().unwrap()
+}
+
+#[cfg(not(kani))]
+fn fixed_merge_run(depth: u8, is_full: bool, d0: u8, h0: u64, p0: u64) -> BMOC {
+  let sh = 2 * (depth - d0) as u32;
+  let n = 1usize << sh;
+  let mut b = BMOCBuilderFixedDepth::with_capacity(depth, is_full, n);
+  let mut k = 0u64;
+  while k < n as u64 { b.push((h0 << sh) + k); k += 1; }
+  b.push(p0);
+  b.to_bmoc().expect("C15: builder returns nothing although cells were pushed")
+}
